@@ -107,7 +107,11 @@ class Ctx:
             if key in seen:
                 continue
             seen.add(key)
-            (kf if key in listed else viol).append(o)
+            ent = listed.get(key)
+            # a listed finding is identified by what fails, not only where: a different failure at the same construct is new
+            if ent is not None and ent.get('detail') is not None and ent['detail'] != o['detail']:
+                ent = None
+            (kf if ent is not None else viol).append(o)
         out = sys.stdout
         if not self.quiet:
             print(f'[{self.pid}] tier={self.tier} obligations={len(self.obligations)} '
